@@ -8,3 +8,5 @@ git -C /repo checkout -- .
 cp /verif/.build/evidence_backup_$ID.json /verif/evidence/$ID.json 2>/dev/null
 echo "mutant-exit=$RC"
 for g in $(cat /verif/tools/goextract/GENERATED.list); do /verif/.build/goextract $g /repo /verif/lean/AggkitModel/Generated/$g.lean; done
+# rebuild the harness from the restored tree so that no binary built from the mutant is left behind
+(cd /verif/harness && GOFLAGS=-mod=mod GOPROXY=off go build -tags verif -o /verif/.build/harness . >/dev/null 2>&1)
